@@ -775,3 +775,320 @@ Proof.
   - unfold bind at 1. rewrite item_fallback_close.
     unfold bind at 1. rewrite item_fallback_close. reflexivity.
 Qed.
+
+(* ---------------------------------------------------------------- definitions *)
+
+Lemma toks_prelude_split : forall cs ds ats inline,
+  toks_prelude cs ds ats inline = toks_prelude cs ds [] inline ++ flat_map (toks_attr inline) ats.
+Proof. intros. unfold toks_prelude. cbn [flat_map]. now rewrite app_nil_r, <- app_assoc. Qed.
+
+(* a definition parser that wants keyword [k] fails on a definition that starts with [k'] *)
+Lemma wrong_def : forall A (q : list string * list string * list attr -> parser A) a k k' cs ds ats rest n,
+  (k' =? k) = false -> length (toks_prelude cs ds ats false) < n ->
+  (p <- prelude n true true a false ;; kw_ws k ;;; q p)
+    (toks_prelude cs ds ats false ++ TWord k' true :: rest) = None.
+Proof.
+  intros A q a k k' cs ds ats rest n Hk Hn. unfold bind at 1.
+  destruct a.
+  - rewrite prelude_ok; [| auto | auto | auto | reflexivity | assumption].
+    unfold bind. cbn [kw_ws]. now rewrite Hk.
+  - destruct ats as [|x ats].
+    + rewrite prelude_ok; [| auto | auto | auto | reflexivity | assumption].
+      unfold bind. cbn [kw_ws]. now rewrite Hk.
+    + rewrite toks_prelude_split in *. rewrite <- app_assoc.
+      rewrite prelude_ok; [| auto | auto | auto | reflexivity | len_tac].
+      reflexivity.
+Qed.
+
+Lemma struct_def_ok : forall d n r, wf_def (DStruct d) -> length (toks_def (DStruct d)) < n ->
+  struct_def n (toks_def (DStruct d) ++ r) = Some (DStruct d, r).
+Proof.
+  intros [c dc a name fs fb] n r Hwf Hn. unfold struct_def. cbn [toks_def wf_def] in *.
+  cbn [sd_comment sd_doc sd_attrs sd_name sd_fields sd_fb] in *.
+  unfold bind at 1. rewrite <- app_assoc.
+  rewrite prelude_ok; [| auto | auto | auto | reflexivity | len_tac].
+  cbn [fst snd]. unfold W. norm. unfold bind at 1. cbn [kw_ws].
+  change ("struct" =? "struct") with true. cbv iota.
+  unfold bind at 1. cbn [ident]. unfold bind at 1. cbn [tokp punct_eqb].
+  rewrite (struct_body_ok _ (fun fs0 fb0 => ret (DStruct _))); [reflexivity | assumption | len_tac].
+Qed.
+
+Lemma enum_def_ok : forall d n r, wf_def (DEnum d) -> length (toks_def (DEnum d)) < n ->
+  enum_def n (toks_def (DEnum d) ++ r) = Some (DEnum d, r).
+Proof.
+  intros [c dc a name vs fb] n r Hwf Hn. unfold enum_def. cbn [toks_def wf_def] in *.
+  cbn [ed_comment ed_doc ed_attrs ed_name ed_vars ed_fb] in *.
+  unfold bind at 1. rewrite <- app_assoc.
+  rewrite prelude_ok; [| auto | auto | auto | reflexivity | len_tac].
+  cbn [fst snd]. unfold W. norm. unfold bind at 1. cbn [kw_ws].
+  change ("enum" =? "enum") with true. cbv iota.
+  unfold bind at 1. cbn [ident]. unfold bind at 1. cbn [tokp punct_eqb].
+  rewrite (enum_body_ok _ (fun vs0 fb0 => ret (DEnum _))); [reflexivity | assumption | len_tac].
+Qed.
+
+Lemma service_items_stop : forall ffb efb n r,
+  length (toks_optl (toks_item_fb "fn") ffb ++ toks_optl (toks_item_fb "event") efb) < n ->
+  service_item n (toks_optl (toks_item_fb "fn") ffb ++ toks_optl (toks_item_fb "event") efb ++ TP PCurC :: r) = None.
+Proof.
+  intros [f|] [e|] n r Hn; cbn [toks_optl app] in *.
+  - rewrite <- ?app_assoc. apply service_item_stops_fb; [now left | len_tac].
+  - apply service_item_stops_fb; [now left | len_tac].
+  - apply service_item_stops_fb; [now right | len_tac].
+  - apply service_item_stops_close.
+Qed.
+
+Lemma service_def_ok : forall d n r, wf_def (DService d) -> length (toks_def (DService d)) < n ->
+  service_def n (toks_def (DService d) ++ r) = Some (DService d, r).
+Proof.
+  intros [c dc name uc u vc v items ffb efb] n r Hwf Hn. unfold service_def. cbn [toks_def wf_def] in *.
+  cbn [sv_comment sv_doc sv_name sv_uuid_comment sv_uuid sv_ver_comment sv_ver sv_items sv_fn_fb sv_ev_fb] in *.
+  unfold bind at 1. rewrite <- app_assoc.
+  rewrite prelude_ok; [| auto | auto | auto | reflexivity | len_tac].
+  cbn [fst snd]. unfold W. norm. unfold bind at 1. cbn [kw_ws].
+  change ("service" =? "service") with true. cbv iota.
+  unfold bind at 1. cbn [ident]. unfold bind at 1. cbn [tokp punct_eqb].
+  unfold bind at 1. rewrite comments_ok; [| exact I | len_tac].
+  unfold bind at 1. cbn [kw]. change ("uuid" =? "uuid") with true. cbv iota.
+  unfold bind at 1. cbn [tokp punct_eqb]. unfold bind at 1. cbn [lit_uuid].
+  unfold bind at 1. cbn [tokp punct_eqb].
+  unfold bind at 1. rewrite comments_ok; [| exact I | len_tac].
+  unfold bind at 1. cbn [kw]. change ("version" =? "version") with true. cbv iota.
+  unfold bind at 1. cbn [tokp punct_eqb]. unfold bind at 1. cbn [lit_int].
+  unfold bind at 1. cbn [tokp punct_eqb].
+  unfold bind at 1.
+  assert (Hlen : length items <= length (flat_map toks_item items)).
+  { apply flat_map_length_le. intros; apply toks_item_length. }
+  change (alt (fn_def n) (event_def n)) with (service_item n).
+  rewrite (many_ok _ (service_item n) toks_item).
+  - rewrite (service_tail_ok _ (fun f e => ret (DService
+      {| sv_comment := c; sv_doc := dc; sv_name := name; sv_uuid_comment := uc; sv_uuid := u;
+         sv_ver_comment := vc; sv_ver := v; sv_items := items; sv_fn_fb := f; sv_ev_fb := e |})));
+      [reflexivity | len_tac].
+  - intros x r' Hx. apply service_item_ok.
+    + rewrite Forall_forall in Hwf. now apply Hwf.
+    + pose proof (flat_map_elem_length _ toks_item items x Hx). len_tac.
+  - apply service_items_stop. len_tac.
+  - len_tac.
+Qed.
+
+Lemma find_cty_str : forall c, find_cty (cty_str c) = Some c.
+Proof. destruct c; reflexivity. Qed.
+
+Lemma const_def_ok : forall d n r, length (toks_def (DConst d)) < n ->
+  const_def n (toks_def (DConst d) ++ r) = Some (DConst d, r).
+Proof.
+  intros [c dc name ty v] n r Hn. unfold const_def. cbn [toks_def] in *.
+  cbn [cd_comment cd_doc cd_name cd_ty cd_val] in *.
+  unfold bind at 1. rewrite <- app_assoc.
+  rewrite prelude_ok; [| auto | auto | auto | reflexivity | len_tac].
+  cbn [fst snd]. unfold W. norm. unfold bind at 1. cbn [kw_ws].
+  change ("const" =? "const") with true. cbv iota.
+  unfold bind at 1. cbn [ident]. unfold bind at 1. cbn [tokp punct_eqb].
+  unfold bind at 1. unfold const_value, bind at 1. cbn [ident]. rewrite find_cty_str.
+  destruct ty; reflexivity.
+Qed.
+
+Lemma newtype_def_ok : forall d n r, wf_def (DNewtype d) -> length (toks_def (DNewtype d)) < n ->
+  newtype_def n (toks_def (DNewtype d) ++ r) = Some (DNewtype d, r).
+Proof.
+  intros [c dc a name t] n r Hwf Hn. unfold newtype_def. cbn [toks_def wf_def] in *.
+  cbn [nd_comment nd_doc nd_attrs nd_name nd_ty] in *.
+  unfold bind at 1. rewrite <- app_assoc.
+  rewrite prelude_ok; [| auto | auto | auto | reflexivity | len_tac].
+  cbn [fst snd]. unfold W. norm. unfold bind at 1. cbn [kw_ws].
+  change ("newtype" =? "newtype") with true. cbv iota.
+  unfold bind at 1. cbn [ident]. unfold bind at 1. cbn [tokp punct_eqb].
+  unfold bind at 1. rewrite type_name_ok; [reflexivity | assumption | exact I | len_tac].
+Qed.
+
+(* the shape every definition's tokens have: prelude, then the keyword *)
+Definition def_kw (d : def) : string :=
+  match d with
+  | DStruct _ => "struct" | DEnum _ => "enum" | DService _ => "service" | DConst _ => "const"
+  | DNewtype _ => "newtype"
+  end.
+
+Lemma toks_def_shape : forall d, exists cs ds ats rest,
+  toks_def d = toks_prelude cs ds ats false ++ TWord (def_kw d) true :: rest.
+Proof.
+  intros [d|d|d|d|d]; cbn [toks_def def_kw]; unfold W; do 4 eexists; reflexivity.
+Qed.
+
+Lemma definition_ok : forall d n r, wf_def d -> length (toks_def d) < n ->
+  definition n (toks_def d ++ r) = Some (d, r).
+Proof.
+  intros d n r Hwf Hn. unfold definition.
+  destruct (toks_def_shape d) as [cs [ds [ats [rest Hshape]]]].
+  assert (Hp : length (toks_prelude cs ds ats false) < n) by (rewrite Hshape in Hn; len_tac).
+  assert (Hwrong : forall A (q : _ -> parser A) a k, (def_kw d =? k) = false ->
+            (p <- prelude n true true a false ;; kw_ws k ;;; q p) (toks_def d ++ r) = None).
+  { intros A q a k Hk. rewrite Hshape, <- app_assoc. cbn [app]. now apply wrong_def. }
+  destruct d as [d|d|d|d|d]; cbn [def_kw] in Hwrong.
+  - unfold alt at 1. now rewrite struct_def_ok.
+  - unfold alt at 1. unfold struct_def at 1. rewrite Hwrong by reflexivity.
+    unfold alt at 1. now rewrite enum_def_ok.
+  - unfold alt at 1. unfold struct_def at 1. rewrite Hwrong by reflexivity.
+    unfold alt at 1. unfold enum_def at 1. rewrite Hwrong by reflexivity.
+    unfold alt at 1. now rewrite service_def_ok.
+  - unfold alt at 1. unfold struct_def at 1. rewrite Hwrong by reflexivity.
+    unfold alt at 1. unfold enum_def at 1. rewrite Hwrong by reflexivity.
+    unfold alt at 1. unfold service_def at 1. rewrite Hwrong by reflexivity.
+    unfold alt at 1. now rewrite const_def_ok.
+  - unfold alt at 1. unfold struct_def at 1. rewrite Hwrong by reflexivity.
+    unfold alt at 1. unfold enum_def at 1. rewrite Hwrong by reflexivity.
+    unfold alt at 1. unfold service_def at 1. rewrite Hwrong by reflexivity.
+    unfold alt at 1. unfold const_def at 1. rewrite Hwrong by reflexivity.
+    now apply newtype_def_ok.
+Qed.
+
+Lemma definition_nil : forall n, definition n [] = None.
+Proof.
+  intros n.
+  assert (H : forall A (q : _ -> parser A) a k, (p <- prelude n true true a false ;; kw_ws k ;;; q p) [] = None).
+  { intros. unfold bind at 1, prelude, bind at 1. rewrite many_stop by (apply pitem_none; reflexivity). reflexivity. }
+  unfold definition, alt, struct_def, enum_def, service_def, const_def, newtype_def.
+  now rewrite !H.
+Qed.
+
+(* ---------------------------------------------------------------- imports, header, file *)
+
+Lemma import_stmt_ok : forall i n r, length (toks_import i) < n ->
+  import_stmt n (toks_import i ++ r) = Some (i, r).
+Proof.
+  intros [c name] n r Hn. unfold toks_import, import_stmt in *. cbn [i_comment i_name] in *.
+  unfold bind at 1. rewrite <- app_assoc. rewrite comments_ok; [| exact I | len_tac].
+  reflexivity.
+Qed.
+
+Definition good_head (ts : list token) : Prop :=
+  match ts with
+  | TComment _ :: _ | TDocIn _ :: _ => False
+  | TWord w true :: _ => w <> "import"
+  | _ => True
+  end.
+
+Lemma import_stmt_stop : forall cs rest n, length cs < n -> good_head rest ->
+  import_stmt n (map TComment cs ++ rest) = None.
+Proof.
+  intros cs rest n Hn Hg. unfold import_stmt, bind at 1.
+  rewrite comments_ok; [| destruct rest as [|[] ?]; cbn in *; auto | assumption].
+  unfold bind at 1. destruct rest as [|[w [|]| | | | | | | | |] rest]; try reflexivity.
+  cbn [kw_ws]. cbn [good_head] in Hg. apply String.eqb_neq in Hg. now rewrite Hg.
+Qed.
+
+Definition hdr_item (n : nat) : parser (list string * string) :=
+  c <- comments n ;; d <- doc_string_inline ;; ret (c, d).
+
+Definition hdr_head (ts : list token) : Prop :=
+  match ts with TComment _ :: _ | TDocIn _ :: _ => False | _ => True end.
+
+Lemma good_hdr_head : forall ts, good_head ts -> hdr_head ts.
+Proof. intros [|[] ts]; cbn; auto. Qed.
+
+Lemma hdr_item_stop : forall cs rest n, length cs < n -> hdr_head rest ->
+  hdr_item n (map TComment cs ++ rest) = None.
+Proof.
+  intros cs rest n Hn Hg. unfold hdr_item, bind at 1.
+  rewrite comments_ok; [| destruct rest as [|[] ?]; cbn in *; auto | assumption].
+  unfold bind at 1. destruct rest as [|[] rest]; try reflexivity. contradiction.
+Qed.
+
+Lemma hdr_ok : forall cs ds n rest,
+  (ds = [] -> cs = []) -> hdr_item n rest = None -> length cs + length ds < n ->
+  exists h, many n (hdr_item n) (map TComment cs ++ map TDocIn ds ++ rest) = Some (h, rest) /\
+            flat_map fst h = cs /\ map snd h = ds.
+Proof.
+  intros cs ds n rest Hcd Hstop Hn. destruct ds as [|d ds].
+  - rewrite Hcd by reflexivity. exists []. cbn [map app]. rewrite many_stop by assumption. auto.
+  - exists ((cs, d) :: map (fun x => ([], x)) ds).
+    set (tk := fun (x : list string * string) => map TComment (fst x) ++ [TDocIn (snd x)]).
+    assert (Htoks : map TComment cs ++ map TDocIn (d :: ds) ++ rest =
+                    flat_map tk ((cs, d) :: map (fun x => ([], x)) ds) ++ rest).
+    { cbn [flat_map map]. unfold tk at 1. cbn [fst snd]. rewrite <- !app_assoc. cbn [app].
+      f_equal. f_equal. f_equal. rewrite flat_map_map. unfold tk. cbn [fst snd map app].
+      now rewrite flat_map_single. }
+    rewrite Htoks. split; [|split].
+    + apply many_ok.
+      * intros [c x] r' Hin. unfold tk, hdr_item. cbn [fst snd]. unfold bind at 1.
+        rewrite <- app_assoc. rewrite comments_ok; [reflexivity | exact I | ].
+        destruct Hin as [Hin | Hin].
+        -- injection Hin as <- _. lia.
+        -- apply in_map_iff in Hin. destruct Hin as [y [Hy _]]. injection Hy as <- _. cbn. lia.
+      * assumption.
+      * cbn [length]. rewrite map_length. cbn [length] in Hn. lia.
+    + cbn [flat_map fst]. rewrite flat_map_map. cbn [fst]. now rewrite flat_map_nil, app_nil_r.
+    + cbn [map snd]. rewrite map_map. cbn [snd]. now rewrite map_id.
+Qed.
+
+Lemma def_comment_shape : forall d r, exists cs rest,
+  toks_def d ++ r = map TComment cs ++ rest /\ length cs < length (toks_def d) /\ good_head rest.
+Proof.
+  intros d r. destruct (toks_def_shape d) as [cs [ds [ats [rest0 Hshape]]]].
+  exists cs, (map TDoc ds ++ flat_map (toks_attr false) ats ++ TWord (def_kw d) true :: rest0 ++ r).
+  rewrite Hshape. unfold toks_prelude. split; [|split].
+  - now rewrite <- !app_assoc.
+  - len_tac.
+  - destruct ds; [|exact I]. destruct ats; [|exact I]. cbn. destruct d; cbn; discriminate.
+Qed.
+
+Lemma defs_good : forall defs,
+  exists cs rest, flat_map toks_def defs = map TComment cs ++ rest /\
+                  length cs < S (length (flat_map toks_def defs)) /\ good_head rest.
+Proof.
+  intros [|d defs]; cbn [flat_map].
+  - exists [], []. cbn. auto.
+  - destruct (def_comment_shape d (flat_map toks_def defs)) as [cs [rest [H1 [H2 H3]]]].
+    exists cs, rest. rewrite H1. split; [reflexivity|]. split; [|assumption].
+    rewrite <- H1. len_tac.
+Qed.
+
+Lemma body_good : forall imps defs,
+  exists cs rest, flat_map toks_import imps ++ flat_map toks_def defs = map TComment cs ++ rest /\
+                  length cs < S (length (flat_map toks_import imps ++ flat_map toks_def defs)) /\
+                  hdr_head rest.
+Proof.
+  intros [|i imps] defs; cbn [flat_map app].
+  - destruct (defs_good defs) as [cs [rest [H1 [H2 H3]]]]. exists cs, rest.
+    split; [assumption|]. split; [assumption|]. now apply good_hdr_head.
+  - exists (i_comment i), ([W "import" true; W (i_name i) false; TP PTerm] ++ flat_map toks_import imps ++ flat_map toks_def defs).
+    unfold toks_import. split; [now rewrite <- !app_assoc|]. split; [len_tac|].
+    exact I.
+Qed.
+
+Lemma toks_import_length : forall i, 1 <= length (toks_import i).
+Proof. intros. unfold toks_import. len_tac. Qed.
+
+Lemma toks_def_length : forall d, 1 <= length (toks_def d).
+Proof. intros d. destruct (toks_def_shape d) as [cs [ds [ats [rest H]]]]. rewrite H. len_tac. Qed.
+
+Theorem parse_toks_toks : forall a, wf_ast a -> parse_toks (toks a) = Some (canon a).
+Proof.
+  intros a [Hhdr Hdefs]. unfold parse_toks.
+  set (n := S (length (toks a))).
+  set (imps := sort_imports (s_imports a)).
+  assert (Hn : length (toks a) < n) by (unfold n; lia).
+  unfold toks in *. fold imps in Hn |- *.
+  unfold file. fold (hdr_item n). unfold bind at 1.
+  destruct (body_good imps (s_defs a)) as [bc [brest [Hb1 [Hb2 Hb3]]]].
+  destruct (hdr_ok (s_comment a) (s_doc a) n (flat_map toks_import imps ++ flat_map toks_def (s_defs a)))
+    as [h [Hh [Hh1 Hh2]]].
+  - assumption.
+  - rewrite Hb1. apply hdr_item_stop; [|assumption]. len_tac.
+  - len_tac.
+  - rewrite Hh. unfold bind at 1.
+    destruct (defs_good (s_defs a)) as [dc [drest [Hd1 [Hd2 Hd3]]]].
+    rewrite (many_ok _ (import_stmt n) toks_import).
+    + unfold bind at 1.
+      rewrite <- (app_nil_r (flat_map toks_def (s_defs a))).
+      rewrite (many_ok _ (definition n) toks_def).
+      * unfold canon. rewrite Hh1, Hh2. reflexivity.
+      * intros d r' Hd. apply definition_ok.
+        -- rewrite Forall_forall in Hdefs. now apply Hdefs.
+        -- pose proof (flat_map_elem_length _ toks_def (s_defs a) d Hd). len_tac.
+      * apply definition_nil.
+      * pose proof (flat_map_length_le _ toks_def (s_defs a) (fun x _ => toks_def_length x)). len_tac.
+    + intros i r' Hi. apply import_stmt_ok.
+      pose proof (flat_map_elem_length _ toks_import imps i Hi). len_tac.
+    + rewrite Hd1. apply import_stmt_stop; [|assumption]. len_tac.
+    + pose proof (flat_map_length_le _ toks_import imps (fun x _ => toks_import_length x)). len_tac.
+Qed.
